@@ -2,7 +2,7 @@
    object / of the wrapped transport / acquired which lock, in global order) is replayed through the multi-task pump
    model of Conc/TlsPump.v; the model must emit the same actions on the wrapped transport and the BIOs, and the same
    result for every pumped call. *)
-From EN Require Import Lib.Bytes Lib.Sx Conc.TlsBase Conc.TlsPump.
+From EN Require Import Lib.Bytes Lib.Sx Conc.TlsBase Conc.TlsPump Gen.ParamsC08.
 Open Scope Z_scope.
 
 Definition zeros (n : nat) : bytes := repeat 0%N n.
@@ -68,8 +68,17 @@ Definition enc_task (tk : task) : sx :=
   | _ => L [A 9; A 9]
   end.
 
+Definition run_trace (labs : list sx) : sx :=
+      do ls <- map_opt dec_lab labs;
+      let '(y, acts) := sys_run sys0 ls in
+      L [L (map enc_act acts); L (map enc_task (y_tasks y)); of_nat (length (wbio (y_sh y)));
+         of_bool (send_lock (y_sh y)); of_bool (recv_lock (y_sh y))].
+
 Definition run (x : sx) : sx :=
   match x with
+  (* a trace recorded for one state of the lost-wakeup fix (flag) is only meaningful in that state *)
+  | L (L labs :: L (B _ :: A flag :: _) :: _) =>
+      if Bool.eqb (Z.eqb flag 1) recheck_after_recv_lock then run_trace labs else L [A 777]
   | L (L labs :: _) =>
       do ls <- map_opt dec_lab labs;
       let '(y, acts) := sys_run sys0 ls in
